@@ -164,7 +164,7 @@ theorem C04_weave_flat (acts : List Act) : weave acts = acts.flatMap Act.args :=
   simp
 
 theorem cliargs_eq (c : Cfg) (atoms : List Atom) (bang : Option (Bool × Str)) :
-    cliargs c atoms bang = atoms.flatMap (fun a => (atomAct c a).args) ++ bangArg bang := by
+    cliargs c atoms bang = atoms.flatMap (fun a => (atomAct c a).args) ++ bangArg c bang := by
   unfold cliargs
   rw [C04_weave_flat, List.flatMap_map]
 
@@ -250,8 +250,15 @@ theorem cutAtLB_id (t : Str) (h : ∀ c ∈ t, lbChars.contains c = false) : cut
     rw [ih (fun x hx => h x (List.mem_cons_of_mem _ hx))]; rfl
 
 /-- on a line without exotic line-boundary characters the macro argument is the source text, stripped -/
-theorem macroArg_clean (t : Str) (h : ∀ c ∈ t, lbChars.contains c = false) : macroArg false t = strip t := by
-  simp [macroArg, sourceSlice, cutAtLB_id t h]
+theorem macroArg_clean (c : Cfg) (t : Str) (h : ∀ x ∈ t, lbChars.contains x = false) : macroArg c false t = strip t := by
+  unfold macroArg
+  split
+  · simp [sourceSlice, cutAtLB_id t h]
+  · rfl
+
+/-- … and always so once `BaseParser.lines` is cut at `\n` only -/
+theorem macroArg_fixed (c : Cfg) (h : c.linesCutAtLB = false) (lb : Bool) (t : Str) : macroArg c lb t = strip t := by
+  simp [macroArg, h]
 
 /-- atoms whose parser action is `append`: literals, `@!(…)`, words without `*` -/
 def appendAtom : Atom → Bool
@@ -276,23 +283,25 @@ theorem bangFits_append (c : Cfg) (atoms : List Atom) (h : ∀ a ∈ atoms, appe
   | inject v => simp [appendAtom] at this
   | adjacent ps => simp [appendAtom] at this
 
-/-- PARTIAL: after words, literals and `@!(…)` the text following a macro `!` is ONE more argument at the
-end — never split, expanded or globbed — and, when neither it nor the line before it holds a
+/-- FULL STATEMENT, for the repaired variant (the two translated facts `lines uses splitlines` and
+`_append_subproc_bang appends to .elts` both false): after ANY atoms the text following a macro `!` is
+exactly ONE more argument at the end, the source text stripped — never split, expanded or globbed -/
+theorem C04_macro_raw (c : Cfg) (h1 : c.linesCutAtLB = false) (h2 : c.bangNeedsList = false)
+    (atoms : List Atom) (lb : Bool) (t : Str) :
+    command c atoms (some (lb, t)) = some (cliargs c atoms none ++ [strip t]) := by
+  simp [command, h2, cliargs_eq, bangArg, macroArg_fixed c h1]
+
+/-- PARTIAL, for the code as it is: after words, literals and `@!(…)` the text following a macro `!` is ONE
+more argument at the end and, when neither it nor the line before it holds a
 U+000B/000C/001C-1E/0085/2028/2029, exactly the source text, stripped -/
 theorem C04_macro_raw_partial (c : Cfg) (atoms : List Atom) (t : Str) (ha : ∀ a ∈ atoms, appendAtom a = true)
     (h : ∀ x ∈ t, lbChars.contains x = false) :
     command c atoms (some (false, t)) = some (cliargs c atoms none ++ [strip t]) := by
-  simp [command, bangFits_append c atoms ha, cliargs_eq, bangArg, macroArg_clean t h]
+  simp [command, bangFits_append c atoms ha, cliargs_eq, bangArg, macroArg_clean c t h]
 
 /-- without a macro tail a command always parses (in the model) -/
 theorem C04_command_no_bang (c : Cfg) (atoms : List Atom) : command c atoms none = some (cliargs c atoms none) := by
   simp [command]
-
-/-- COUNTEREXAMPLE (open known finding `macro-tail-after-extend-crashes`): `rec @("a") ! b` does not run at
-all — after an `@()` / glob word / `a@(x)b` atom the parser's `_append_subproc_bang` raises AttributeError -/
-theorem C04_macro_after_extend_cex (c : Cfg) :
-    command c [.inject (.one (.str [97]))] (some (false, [98])) = none := by
-  simp [command, bangFits, atomAct]
 
 theorem C04_macro_one_arg (c : Cfg) (atoms : List Atom) (lb : Bool) (t : Str) :
     (cliargs c atoms (some (lb, t))).length = (cliargs c atoms none).length + 1 := by
@@ -301,15 +310,7 @@ theorem C04_macro_one_arg (c : Cfg) (atoms : List Atom) (lb : Bool) (t : Str) :
 theorem C04_macro_at_partial (c : Cfg) (pre post : List Atom) (t : Str) (bang : Option (Bool × Str))
     (h : ∀ x ∈ t, lbChars.contains x = false) :
     cliargs c (pre ++ [.macroAt false t] ++ post) bang = cliargs c pre none ++ [strip t] ++ cliargs c post bang := by
-  simp [cliargs_eq, atomAct, Act.args, bangArg, List.flatMap_append, macroArg_clean t h]
-
-/-- COUNTEREXAMPLE (open known finding `macro-text-cut-at-line-boundary`): `![rec x! a<FF>b]` delivers `a`,
-not `a<FF>b`: the unrestricted statement "the macro argument is the stripped source text" is false -/
-theorem C04_macro_raw_cex (c : Cfg) :
-    cliargs c [] (some (false, [97, 12, 98])) = [[97]] ∧ strip [97, 12, 98] = [97, 12, 98] := by
-  refine ⟨?_, by decide⟩
-  simp only [cliargs_eq, List.flatMap_nil, List.nil_append, bangArg]
-  decide
+  simp [cliargs_eq, atomAct, Act.args, bangArg, List.flatMap_append, macroArg_clean c t h]
 
 theorem dropWhile_id {α} (p : α → Bool) (l : List α) (h : ∀ x, l.head? = some x → p x = false) : l.dropWhile p = l := by
   cases l with
@@ -337,10 +338,10 @@ def cleanStr (c : Cfg) (s : Str) : Prop :=
 /-- PARTIAL: when no combination contains `*`, `$` or a tilde-prefix, the word is the outer product of
 its parts, verbatim, in `itertools.product` order -/
 theorem C04_adjacent_partial (c : Cfg) (ps : List Part)
-    (h : ∀ los ∈ product (ps.map partStrs), cleanStr c los.flatten) :
-    cliargs c [.adjacent ps] none = (product (ps.map partStrs)).map List.flatten := by
+    (h : ∀ los ∈ product (ps.map (partStrs c)), cleanStr c los.flatten) :
+    cliargs c [.adjacent ps] none = (product (ps.map (partStrs c))).map List.flatten := by
   simp only [cliargs_eq, List.flatMap_cons, List.flatMap_nil, bangArg, List.append_nil, atomAct, Act.args, outerProduct]
-  generalize product (ps.map partStrs) = combos at h
+  generalize product (ps.map (partStrs c)) = combos at h
   induction combos with
   | nil => rfl
   | cons l ls ih =>
@@ -352,15 +353,18 @@ theorem C04_adjacent_partial (c : Cfg) (ps : List Part)
 example (c : Cfg) : cliargs c [.adjacent [.text [120], .inj (.iter [.str [97], .str [98]]), .text [121]]] none =
     [[120, 97, 121], [120, 98, 121]] := by
   rw [C04_adjacent_partial]
-  · decide
+  · simp [product, partStrs, injectList, Item.ensure]
   · intro los hl
     have : los = [[120], [97], [121]] ∨ los = [[120], [98], [121]] := by
       simpa [product, partStrs, injectList, Item.ensure] using hl
     rcases this with rfl | rfl <;> exact ⟨by decide, by decide, rfl⟩
 
+/-- the code as it is (all three translated facts in their defective state) -/
 def cexCfg : Cfg :=
   { env := demoEnv
     fstrKeepsRaw := false
+    linesCutAtLB := true
+    bangNeedsList := true
     glob := fun p => if p = [112, 42, 46, 112, 121] then [[112, 49, 46, 112, 121], [112, 50, 46, 112, 121]] else [] }
 
 /-- COUNTEREXAMPLE (open known finding `adjacent-inject-reinterpreted`): in a directory holding `p1.py`
@@ -377,6 +381,24 @@ theorem C04_adjacent_cex_expand :
     cliargs cexCfg [.adjacent [.text [120], .inj (.one (.str [36, 72])), .text [47, 121]]] none = [[120, 47, 114, 47, 121]] ∧
     cliargs cexCfg [.inject (.one (.str [36, 72]))] none = [[36, 72]] := by
   decide
+
+/-- the repaired variant -/
+def fixedCfg : Cfg := { cexCfg with fstrKeepsRaw := true, linesCutAtLB := false, bangNeedsList := false }
+
+/-- COUNTEREXAMPLE (open known finding `macro-text-cut-at-line-boundary`): `![rec x! a<FF>b]` delivers `a`,
+not `a<FF>b`: for the code as it is the statement "the macro argument is the stripped source text" is false -/
+theorem C04_macro_raw_cex :
+    command cexCfg [] (some (false, [97, 12, 98])) = some [[97]] ∧ strip [97, 12, 98] = [97, 12, 98] := by
+  decide
+
+/-- COUNTEREXAMPLE (open known finding `macro-tail-after-extend-crashes`): `rec @("a") ! b` does not run at
+all — after an `@()` / glob word / `a@(x)b` atom the parser's `_append_subproc_bang` raises AttributeError -/
+theorem C04_macro_after_extend_cex :
+    command cexCfg [.inject (.one (.str [97]))] (some (false, [98])) = none := by
+  decide
+
+example : command fixedCfg [.inject (.one (.str [97]))] (some (false, [32, 97, 12, 98, 32])) = some [[97], [97, 12, 98]] := by
+  rw [C04_macro_raw fixedCfg rfl rfl]; decide
 
 /-- COUNTEREXAMPLE (open known finding `raw-fstring-expanded`): with the f-string rule as it is (no `is_raw`
 on the node) `fr"$H"` is expanded although the documentation says raw f-strings only substitute braces -/
